@@ -414,6 +414,10 @@ const spinFlag = 0x80000000
 // lockFlag marks the site right after a lock was acquired.
 const lockFlag = 0x40000000
 
+// atomicFlag marks the site right before an atomic operation: a
+// synchronisation event like a lock acquisition, but nothing is held.
+const atomicFlag = 0x20000000
+
 func newSite(pos token.Pos, fn, kind string) ast.Stmt {
 	p := fset.Position(pos)
 	rel, err := filepath.Rel(srcRoot, p.Filename)
@@ -680,7 +684,7 @@ func verifCAS2[A, B any](site uint32, f func(A, B) bool, a A, b B) bool {
 	if f(a, b) {
 		return true
 	}
-	verifStep(site&^0x40000000 | 0x80000000)
+	verifStep(site&^0x20000000 | 0x80000000)
 	return false
 }
 func verifCAS3[A, B, C any](site uint32, f func(A, B, C) bool, a A, b B, c C) bool {
@@ -688,7 +692,7 @@ func verifCAS3[A, B, C any](site uint32, f func(A, B, C) bool, a A, b B, c C) bo
 	if f(a, b, c) {
 		return true
 	}
-	verifStep(site&^0x40000000 | 0x80000000)
+	verifStep(site&^0x20000000 | 0x80000000)
 	return false
 }
 func verifYield(site uint32, _ ...any) { verifStep(site) }
@@ -801,7 +805,7 @@ func rewriteAtomics(files []*ast.File) {
 				id := len(sites)
 				sites = append(sites, site{fmt.Sprintf("%s:%d", rel, p.Line), fn, "atomic " + tf.Name()})
 				atomicSites++
-				args := []ast.Expr{&ast.BasicLit{Kind: token.INT, Value: fmt.Sprintf("%d|0x%x", id, uint32(lockFlag))}, call.Fun}
+				args := []ast.Expr{&ast.BasicLit{Kind: token.INT, Value: fmt.Sprintf("%d|0x%x", id, uint32(atomicFlag))}, call.Fun}
 				args = append(args, call.Args...)
 				call.Fun = fun
 				call.Args = args
